@@ -458,7 +458,9 @@ def check_program(ctx, name, f, P, has_data, gtol, facts):
             ctx.close("program.vmap", vm, st, scale=scale, facts=facts, symptom="vmap_differs")
     # ---- grad vs finite differences -----------------------------------------------------
     wts = J(np.cos(np.arange(eager.size) * 0.7 + 0.3))
-    names = sorted(k for k in P)
+    names = sorted(k for k in P) + (["x", "y"] if has_data else [])
+    P = dict(P)
+    P["x"], P["y"] = full["x"], full["y"]
 
     def gfun(Pd):
         Q = dict(full)
